@@ -661,16 +661,22 @@ def rule_release_after(mod, rep):
 # SNODE-CONT: cholnzcnt continues the current supernode only at a vertex with exactly one child
 # ---------------------------------------------------------------------------------------------------------------------------------
 def rule_snode_continue(mod, rep):
-    rep.rule("SNODE-CONT", "cholnzcnt (symmetric mode): part_super_L records a partition of the postordered columns into chains of the elimination tree, so a vertex that does NOT "
-             "start a new supernode must have exactly one child (then lownbr-1 is that child). On the path that skips 'part_super_L[xsup] = lownbr - xsup' the tests on "
-             "nchild[lownbr] must leave exactly the value 1 (a vertex with no child - an isolated vertex - starts its own supernode)", floor=1)
+    rep.rule("SNODE-CONT", "cholnzcnt (part_super_L, symmetric mode) and qrnzcnt (part_super_h): the recorded partition of the postordered columns is a partition into chains of "
+             "the elimination tree, so a column that does NOT start a new supernode must have exactly one child (then k-1 is that child). Where a test on nchild[k] decides "
+             "whether 'part_super[xsup] = k - xsup' is executed, the values of nchild that skip it are exactly {1}: a column without children - an isolated vertex, an empty "
+             "column - starts its own supernode", floor=2)
+    for fname, pname in (("cholnzcnt", "part_super_L"), ("qrnzcnt", "part_super_h")):
+        _snode_continue_one(mod, rep, fname, pname)
+
+
+def _snode_continue_one(mod, rep, fname, pname):
     from .pivot import _cd_closure
-    f = mod.funcs.get("cholnzcnt")
+    f = mod.funcs.get(fname)
     if f is None:
-        rep.brk("ANALYSIS-BROKEN SNODE-CONT: cholnzcnt not found")
+        rep.brk("ANALYSIS-BROKEN SNODE-CONT: %s not found" % fname)
         return
     rep.scope([f.name])
-    kp = f.pindex("part_super_L")
+    kp = f.pindex(pname)
     loops = f.loops()
     sites = []
     for S in f.insts():
@@ -679,8 +685,9 @@ def rule_snode_continue(mod, rep):
     # the in-loop site (the one after the loop closes the last supernode)
     sites = [S for S in sites if any(S.bb.id in body for h, body in loops)]
     if not sites:
-        rep.brk("ANALYSIS-BROKEN SNODE-CONT: no store part_super_L[xsup] = ... inside the vertex loop of cholnzcnt")
+        rep.brk("ANALYSIS-BROKEN SNODE-CONT: no store %s[xsup] = ... inside a loop of %s" % (pname, fname))
         return
+    decided = 0
     for S in sites:
         allowed = {0, 1, 2, 3, 1 << 20}
         ntests = 0
@@ -714,10 +721,15 @@ def rule_snode_continue(mod, rep):
             toward_true = (succ[0] == s)
             ntests += 1
             allowed = {v for v in allowed if ev(v) != toward_true}
-        rep.check(ntests >= 1 and allowed == {1}, "SNODE-CONT", "cholnzcnt#continue@%s" % S.ln,
+        if ntests == 0:
+            continue             # this start is decided by something else (first nonzero of a row)
+        decided += 1
+        rep.check(allowed == {1}, "SNODE-CONT", "%s#continue@%s" % (fname, S.ln),
                   "supernode continues only where nchild[lownbr] == 1 (%d test(s))" % ntests,
                   "the supernode is continued at vertices with nchild in %s (sampled from 0,1,2,3,large): a vertex without children is merged with the preceding column, which is not "
                   "its child - ?PresetMap then skips the relaxed supernode starting there and under-reserves lusup[]" % sorted(allowed), S.loc, f.name)
+    if decided == 0:
+        rep.brk("ANALYSIS-BROKEN SNODE-CONT: no supernode start in %s is decided by a test on nchild[]" % fname)
 
 
 # ---------------------------------------------------------------------------------------------------------------------------------
